@@ -54,7 +54,8 @@ def consts(c, fixes=(True, True, True), maxhist=0, runner_ids=None):
             "MaxRunnerIds": runner_ids or len(c["modelof"]), "QueueCap": c["queue"], "DefaultKeep": 1,
             "AllowExplicitUnload": vf.tla_bool(c["unload"]), "AllowPingFail": vf.tla_bool(c["ping"]),
             "AllowLoadFail": vf.tla_bool(c["loadfail"]), "FixRecheckOnUse": vf.tla_bool(fixes[0]),
-            "FixIdentityDelete": vf.tla_bool(fixes[1]), "FixLockOrder": vf.tla_bool(fixes[2]), "MaxHist": maxhist}
+            "FixIdentityDelete": vf.tla_bool(fixes[1]), "FixLockOrder": vf.tla_bool(fixes[2]), "MaxHist": maxhist,
+            "CallerLeavesOnCancel": "FALSE"}
 
 
 MC_BODY = "INIT Init\nNEXT Next\nVIEW View\nCHECK_DEADLOCK FALSE\n" + "".join(f"INVARIANT {i}\n" for i in INVS)
@@ -82,6 +83,14 @@ def liveness(wd, cov, quick):
         cov["liveness"].append(dict(config=c["name"], distinct=r["distinct"], generated=r["generated"], properties=["Answered", "Drain"]))
         cov["states"] += r["distinct"]
         cov["transitions"] += r["generated"]
+        if c is CONFIGS[0]:
+            # non-vacuity, and the contract with the caller: if scheduleRunner stopped waiting when its context ends, the unbuffered
+            # reply would block processPending with the runner's lock held -- TLC must reject that variant
+            cfg = vf.write_cfg(wd, f"LiveCaller_{mod}.cfg", dict(consts(c2, runner_ids=3), CallerLeavesOnCancel="TRUE"), LIVE_BODY)
+            r = vf.tlc(mod, cfg, wd, timeout=2400, heap="16g")
+            if "Temporal property" not in r["out"] or "violated" not in r["out"]:
+                raise vf.Inconclusive("Sched.tla with CallerLeavesOnCancel is no longer rejected by the liveness properties:\n" + r["out"][-1200:])
+            cov["liveness"].append(dict(config=c["name"] + " + CallerLeavesOnCancel", rejected=True))
 
 
 def handler_progress(wd, res, cov, seed, quick):
